@@ -86,20 +86,24 @@ _NODE_UTIL = (f"len({_RES}.util) == len(util) and forall(lambda q: keys_of({_RES
               f"{_RES}.av[keys_of({_RES}.util)[q]] is {_AVM}[keys_of(util)[q]]), 0, len(util))) and "
               f"implies(av is None, forall(lambda q: c05c_val({_RES}.av[keys_of({_RES}.util)[q]]) == 1, 0, len(util)))")
 LOGMEV_ENSURES = {
-    'kernel': f"c05c_cut('kernel:node-utilities', lambda: {_NODE_UTIL}) and "
-              f"c05c_cut('kernel:terms-agree', lambda: implies({_A_AV_M}, forall(lambda q: {_F} == {_T_AV_M}, 0, len(util)))) and "
+    'kernel': f"c05c_cut('kernel:terms-agree', lambda: implies({_A_AV_M}, forall(lambda q: {_F} == {_T_AV_M}, 0, len(util)))) and "
               f"c05c_cut('kernel:sums-agree', lambda: implies({_A_AV_M}, {_S_RES} == sum_range(lambda q: {_T_AV_M}, 0, len(util)))) and "
               f"implies({_A_AV_M}, c05c_val({_RES}) == -app('numpy.log', sum_range(lambda q: {_T_AV_M}, 0, len(util))))",
-    'unavailable_choice': f"c05c_cut('unavailable:node-utilities', lambda: {_NODE_UTIL}) and "
-                          f"implies({_A_UNAV_M}, c05c_val({_RES}) == -c05c_inf())",
+    'unavailable_choice': f"implies({_A_UNAV_M}, c05c_val({_RES}) == -c05c_inf())",
     'kernel_full_choice_set':
-        f"c05c_cut('kernel_full:node-utilities', lambda: {_NODE_UTIL}) and "
         f"c05c_cut('kernel_full:terms-agree', lambda: implies({_A_FULL_M}, forall(lambda q: {_F} == {_T_FULL_M}, 0, len(util)))) and "
         f"c05c_cut('kernel_full:sums-agree', lambda: implies({_A_FULL_M}, {_S_RES} == sum_range(lambda q: {_T_FULL_M}, 0, len(util)))) and "
         f"implies({_A_FULL_M}, c05c_val({_RES}) == -app('numpy.log', sum_range(lambda q: {_T_FULL_M}, 0, len(util))))",
 }
 _UDM = {'util': 'dict[int, Expression]', 'log_gi': 'dict[int, Expression]', 'av': 'dict[int, Expression] | None'}
+_H_DICT = (f"len(h) == len(util) and forall(lambda q: keys_of(h)[q] == keys_of(util)[q] and "
+           f"c05c_val(h[keys_of(util)[q]]) == {_H(_KM)}, 0, len(util)) and "
+           "forall(lambda x: (x in h) == (x in util), ty='int')")
 contract(M + 'mev.logmev', P, types=_UDM, modifies=[],
+         # explicit proof steps (cuts) at the return point: the local dictionary h, then the node built from it
+         hints=[f"c05c_cut('step1:h-is-util-plus-generating-terms', lambda: {_H_DICT})",
+                f"c05c_cut('step2:h-at-the-chosen-alternative', lambda: implies({_CHM} in util, c05c_val(h[{_CHM}]) == {_H(_CHM)}))",
+                "c05c_cut('step3:node-utilities', lambda: " + _NODE_UTIL.replace(_RES, "typed(log_p, 'LogLogit')") + ")"],
          requires={'python_dict': 'c05c_dict_wf(av)',
                    'generating_terms_for_every_alternative': 'forall(lambda q: keys_of(util)[q] in log_gi, 0, len(util))'},
          raises={'TypeError': N._NOT_OPERAND.format('choice')},
